@@ -83,7 +83,7 @@ PROFILES = {
              "table_text_in_full_text": True, "unit_kind": "message", "max_units": 3, "opts": {"crlf": [False, True]}},
     "ppt": {"ext": "ppt", "render": lambda doc, **kw: legacy.render_ppt(doc, **kw),
             "features": {"run.multi", "run.break", "para.heading", "list.flat", "unit.multi", "unit.empty", "excluded.speaker-notes"},
-            "table_text_in_full_text": True, "unit_kind": "slide", "max_units": 4, "opts": {"codepage": [65001, 65001, 1252, 1200], "text_placement": ["both", "both", "outline"]}},
+            "table_text_in_full_text": True, "unit_kind": "slide", "max_units": 4, "opts": {"codepage": [65001, 65001, 1252, 1200], "text_placement": ["both", "both", "outline"], "two_titles": [False, False, True]}},
     "doc": {"ext": "doc", "render": lambda doc, **kw: legacy.render_doc(doc, **kw),
             "features": {"run.multi", "list.flat"}, "decoration": [w for w in legacy.FILLER.split()] + ["Lorem"],
             "table_text_in_full_text": True, "unit_kind": "flow", "max_units": 1, "opts": {"codepage": [65001, 65001, 1252, 1200]}},
